@@ -11,6 +11,7 @@
 //                      effect in order when read); if the peer was snubbed by D:1, 11 s of virtual time pass
 //                      and the snub is lifted, which unchokes at once (no R/C may be pending: generator
 //                      puts W:0 in front).
+//   N                  choke decision by the peer itself: NOT_INTERESTED (batched, takes effect in order when read)
 //   D:1                choke decision: Peer::set_snubbed(true) on the real choke_queue, at once.
 //                      Must not follow R/C/D:0 directly and must be followed by a W (generator puts
 //                      W:0): any stepping of the library afterwards is a write opportunity.
@@ -236,7 +237,7 @@ static std::string run_case(Session& S, const std::string& line) {
 
   // no Manager tick inside a case: each later D:0 needs 11 s of virtual time
   int unchokes = 0;
-  for (auto& o : ops) if (o == "D:0") unchokes++;
+  for (auto& o : ops) if (o == "D:0") unchokes++;   // (each may need 11 s of virtual time)
   S.advance_us(1000000);
   S.avoid_tick_within((int64_t)(unchokes * 11 + 3) * 1000000);
 
@@ -295,12 +296,17 @@ static std::string run_case(Session& S, const std::string& line) {
   } rate_guard(rate);
 
   std::string batch, snaps, err, thr_obs;
+  bool sent_not_interested = false;
   for (auto& o : ops) {
     char kind = o.empty() ? '?' : o[0];
     if (kind == 'R' || kind == 'C') {
       uint32_t a, b, c;
       if (sscanf(o.c_str() + 1, ":%u:%u:%u", &a, &b, &c) != 3) return "BADCASE";
       batch += kind == 'R' ? WirePeer::request(a, b, c) : WirePeer::cancel(a, b, c);
+    } else if (o == "N") {
+      // the peer's NOT_INTERESTED (batched): the real choke_queue chokes it when the message is read, in order
+      batch += WirePeer::not_interested();
+      sent_not_interested = true;
     } else if (o == "D:0") {
       // unchoke decision = the peer's INTERESTED reaching the real choke_queue (takes effect when the
       // batch is read, in order). After a snub: un-snub first (the queue then waits for INTERESTED)
@@ -317,6 +323,12 @@ static std::string run_case(Session& S, const std::string& line) {
           // before that fix the queue waited for a fresh INTERESTED
           need_interested = pcb->m_up_choke.choked();
         }
+      }
+      if (sent_not_interested && need_interested) {
+        // choked through NOT_INTERESTED: the choke_queue unchokes again only 10 s after that change
+        if (!batch.empty()) return "BADCASE:D0-after-message";
+        S.advance_us(11 * 1000000);
+        sent_not_interested = false;
       }
       if (need_interested) batch += WirePeer::interested();
     } else if (o == "D:1") {
